@@ -296,12 +296,38 @@ Definition tag (e : ev) : string :=
 Definition reqs_of (es : list ev) : list req :=
   flat_map (fun e => match e with EvReq r => [r] | _ => [] end) es.
 
+(* the correspondence check runs the three-buffer machine ([krun]); Buffers.v proves it equal to the
+   single-buffer one the theorems are stated for *)
+Fixpoint kquiesce (rf : nat -> bool) (fuel : nat) (s : option kst) : option (list ev * option kst) :=
+  match fuel with
+  | O => Some ([], s)
+  | S f =>
+      match s with
+      | Some k =>
+          match k_ph k with
+          | KHandling =>
+              match kfinish rf s with
+              | Some (e, s1) => match kquiesce rf f s1 with Some (e', s2) => Some ((e ++ e')%list, s2) | None => None end
+              | None => None
+              end
+          | _ => Some ([], s)
+          end
+      | None => Some ([], s)
+      end
+  end.
+
 Definition run_plan (resp : list bool) (s : bytes) (p : list pop) : string :=
   let rf := fun i => nth i resp true in
-  let '(e1, s1) := run rf start (plan_ops s 0 p) in
-  let '(e2, s2) := quiesce rf (S (List.length s)) s1 in
-  let es := (e1 ++ e2)%list in
-  String.concat "/" (map show_req (reqs_of es)) ++ " " ++ String.concat "" (map tag es).
+  match krun rf (Some kinit) (plan_ops s 0 p) with
+  | Some (e1, s1) =>
+      match kquiesce rf (S (List.length s)) s1 with
+      | Some (e2, _) =>
+          let es := (e1 ++ e2)%list in
+          String.concat "/" (map show_req (reqs_of es)) ++ " " ++ String.concat "" (map tag es)
+      | None => "FUEL"
+      end
+  | None => "FUEL"
+  end.
 
 Inductive case := CCase (resp : list bool) (stream : bytes) (plans : list (list pop)).
 Definition run_show (c : case) : string :=
